@@ -73,7 +73,7 @@ func (e *Engine) ConcurrentWrites(n, m int) {
 	for g := 0; g < n; g++ {
 		for i := 0; i < m; i++ {
 			// goroutine g owns blocks b with b%n==g
-			k := e.R.Intn((nb-g+n-1)/n)
+			k := e.R.Intn((nb - g + n - 1) / n)
 			b := g + k*n
 			plan[g] = append(plan[g], wr{int64(b) * Block, e.M.NextWID})
 			e.M.NextWID++
